@@ -19,6 +19,7 @@ average of the positions of the atoms they are constructed from.
 
 import numpy as np
 from .processor import Processor
+from ..selectors import selector_has_position
 
 
 def do_average_bead(molecule, ignore_missing_graphs=False, weight=None):
@@ -80,12 +81,12 @@ def do_average_bead(molecule, ignore_missing_graphs=False, weight=None):
             positions = np.array([
                 subnode['position']
                 for subnode in node['graph'].nodes().values()
-                if subnode.get('position') is not None
+                if selector_has_position(subnode)
             ])
             weights = np.array([
                 node.get('mapping_weights', {}).get(subnode_key, 1) * subnode.get(weight, 1)
                 for subnode_key, subnode in node['graph'].nodes.items()
-                if subnode.get('position') is not None
+                if selector_has_position(subnode)
             ])
             try:
                 ndim = positions.shape[1]
